@@ -1239,6 +1239,14 @@ Section BatchProofs.
     FIRE st l = Some st' -> counter st' = counter st \/ counter st' = (counter st + 1)%N.
   Proof. intro H. apply fire_step in H. destruct H; cbn [counter]; auto. Qed.
 
+  (* the voting threads' job queues are unbounded: dispatching a scene never blocks, whatever is queued *)
+  Lemma dispatch_never_blocks_lemma st b rest i :
+    pc st = MDisp b rest i -> exists st', FIRE st BMain = Some st'.
+  Proof.
+    intro Hp. cbn. unfold main_step. rewrite Hp. destruct rest as [|[s ds] rest]; [eauto|].
+    destruct (prep (scs st s) ds). eauto.
+  Qed.
+
   (* ---- scene locality of the steps ---------------------------------------------------------------- *)
   Definition touched (st : state) (l : blabel) : option N :=
     match l with
